@@ -2,6 +2,7 @@ package converters
 
 import (
 	"bufio"
+	"bytes"
 	"encoding/binary"
 	"errors"
 	"fmt"
@@ -57,6 +58,8 @@ const (
 
 	cacheFileMagic   = "P2CC"
 	cacheFileVersion = 1
+	// version of a file whose records are being moved, such a file is reset when it is opened
+	cacheFileVersionCompacting = math.MaxUint32
 
 	// stream id of a record whose stream was invalidated
 	invalidStreamID = math.MaxUint64
@@ -551,7 +554,26 @@ func (cachefile *cacheFile) DataForSearch(streamID uint64) ([2][]byte, [][2]int,
 	return [2][]byte{clientData, serverData}, dataSizes, clientBytes, serverBytes, true, nil
 }
 
+// writeHeader replaces the header of the file and makes sure it is on disk, the file position is not changed.
+func (cachefile *cacheFile) writeHeader(version uint32) error {
+	fh := bytes.Buffer{}
+	if err := binary.Write(&fh, binary.LittleEndian, &converterCacheFileHeader{
+		Magic:   [4]byte([]byte(cacheFileMagic)),
+		Version: version,
+	}); err != nil {
+		return err
+	}
+	if _, err := cachefile.file.WriteAt(fh.Bytes(), 0); err != nil {
+		return err
+	}
+	return cachefile.file.Sync()
+}
+
 func (cachefile *cacheFile) truncateFile() error {
+	// the records are moved within the file, until that is done the file has to be recognised as unusable
+	if err := cachefile.writeHeader(cacheFileVersionCompacting); err != nil {
+		return fmt.Errorf("failed to mark the file as being compacted: %w", err)
+	}
 	// cleanup the file by skipping all old streams
 	if _, err := cachefile.file.Seek(cachefile.freeStart, io.SeekStart); err != nil {
 		return fmt.Errorf("failed to seek to free start: %w", err)
@@ -600,6 +622,12 @@ func (cachefile *cacheFile) truncateFile() error {
 	}
 	if err := cachefile.file.Truncate(cachefile.fileSize); err != nil {
 		return fmt.Errorf("failed to truncate file: %w", err)
+	}
+	if err := cachefile.file.Sync(); err != nil {
+		return fmt.Errorf("failed to sync file: %w", err)
+	}
+	if err := cachefile.writeHeader(cacheFileVersion); err != nil {
+		return fmt.Errorf("failed to mark the file as compacted: %w", err)
 	}
 	cachefile.freeSize = 0
 	cachefile.freeStart = cachefile.fileSize
